@@ -75,19 +75,24 @@ def r08_2(ctx):
     loops = sc.enclosing_loops(c)
     kv, lv = ast.unparse(loops[0][0]), ast.unparse(loops[1][0])
     its = [ast.unparse(l[1]) for l in loops]
-    ctx.check(its == ["range(N)", "range(M)"], "_grid_intg_fine loops over intervals and integrator steps", detail="loops", expected="for k in range(N): for l in range(M)", found=its, fi=f)
+    kinds = [li.kind for li in loop_context(sc, n, c)]
+    ctx.check(kinds == ["N", "M"], "_grid_intg_fine loops over intervals and integrator steps", detail="loops", expected="for k in range(N): for l in range(M)", found=its, fi=f)
     ctx.check([ast.unparse(a) for a in c.args[2:]] == [kv, lv] and ast.unparse(c.args[0]) == "stage", "_grid_intg_fine substitutes the remaining symbols of step (k,l)", detail="evaluator indices", expected="eval_at_integrator(stage, ..., k, l)",
               found=ast.unparse(c)[:80], fi=f)
+    # local aliases of sizes and of the control grid (N, M, time) are expanded; computed locals keep their names
+    na = Norm(sc, alias_only=True)
+    G, Mx = "stage._method.control_grid", "stage._method.M"
+    KA = lambda text: Norm(None).key(ast.parse(text.replace("@G", G).replace("@M", Mx), mode="eval").body)
     def local_def(name, within=None):
         ds = [d for d in sc.defs.get(name, []) if d.kind == "assign" and (within is None or sc.within(d.stmt, within))]
         return ds
     # dt
     dts = local_def("dt", loops[0][2])
-    ok = len(dts) == 1 and Norm(None).poly(dts[0].value) == expected("(time[k+1]-time[k])/M", k=kv)
+    ok = len(dts) == 1 and na.key(dts[0].value) == KA("(@G[%s+1]-@G[%s])/@M" % (kv, kv))
     ctx.check(ok, "_grid_intg_fine step length of interval k", detail="refined local time spans another length", expected="dt = (time[k+1]-time[k])/M", found=ast.unparse(dts[0].value) if dts else None, fi=f,
               sample={"dt": ast.unparse(dts[0].value) if dts else None})
     tm = local_def("time")
-    ctx.check(len(tm) == 1 and ast.unparse(tm[0].value) == "stage._method.control_grid", "_grid_intg_fine uses the control grid", detail="time source", expected="time = stage._method.control_grid", found=ast.unparse(tm[0].value) if tm else None, fi=f)
+    ctx.check(all(ast.unparse(d.value) == "stage._method.control_grid" for d in tm), "_grid_intg_fine uses the control grid", detail="time source", expected="time = stage._method.control_grid", found=ast.unparse(tm[0].value) if tm else None, fi=f)
     tl = local_def("tlocal", loops[0][2])
     ok = len(tl) == 1 and Norm(None).key(tl[0].value) == Norm(None).key(ast.parse("linspace(MX(0), dt, refine + 1)", mode="eval").body)
     ctx.check(ok, "_grid_intg_fine local time restarts at 0 and spans one integrator step", detail="local time", expected="tlocal = linspace(0, dt, refine+1)", found=ast.unparse(tl[0].value) if tl else None, fi=f)
@@ -96,12 +101,11 @@ def r08_2(ctx):
     ctx.check(ok, "_grid_intg_fine samples `refine` local times per step, excluding the step end", detail="local sample times", expected="ts = tlocal[:-1]", found=ast.unparse(ts[0].value) if ts else None, fi=f)
     # coefficient block and power basis
     co = local_def("coeff", loops[1][2])
-    ok = len(co) == 1 and isinstance(co[0].value, ast.IfExp) and Norm(sc, no_expand=("M", "N")).key(co[0].value.orelse) == Norm(None).key(ast.parse("stage._method.poly_coeff[%s*M+%s]" % (kv, lv), mode="eval").body)
+    ok = len(co) == 1 and isinstance(co[0].value, ast.IfExp) and na.key(co[0].value.orelse) == KA("stage._method.poly_coeff[%s*@M+%s]" % (kv, lv))
     ctx.check(ok, "_grid_intg_fine selects the coefficient block of step (k,l)", detail="coefficients of another step", expected="stage._method.poly_coeff[k*M+l]", found=ast.unparse(co[0].value) if co else None, fi=f,
               sample={"block": ast.unparse(co[0].value) if co else None})
     cq = local_def("coeff_q", loops[1][2])
-    ok = len(cq) == 1 and isinstance(cq[0].value, ast.IfExp) and Norm(sc, no_expand=("M", "N")).key(cq[0].value.orelse) == Norm(None).key(
-        ast.parse("horzcat(stage._method.xqk[%s*M+%s], stage._method.poly_coeff_q[%s*M+%s])" % (kv, lv, kv, lv), mode="eval").body)
+    ok = len(cq) == 1 and isinstance(cq[0].value, ast.IfExp) and na.key(cq[0].value.orelse) == KA("horzcat(stage._method.xqk[%s*@M+%s], stage._method.poly_coeff_q[%s*@M+%s])" % (kv, lv, kv, lv))
     ctx.check(ok, "_grid_intg_fine quadrature polynomial starts at the quadrature value of the same integrator point", detail="quadrature block", expected="horzcat(xqk[k*M+l], poly_coeff_q[k*M+l])",
               found=ast.unparse(cq[0].value) if cq else None, fi=f)
     tp = local_def("tpower", loops[1][2])
@@ -138,10 +142,10 @@ def r08_2(ctx):
     # running step start: t0 = time[k] at the top of k, advanced by dt once per l
     t0d = [d for d in sc.defs.get("t0", []) if d.kind == "assign" and sc.within(d.stmt, loops[0][2])]
     aug = [d for d in sc.defs.get("t0", []) if d.kind == "aug" and sc.within(d.stmt, loops[1][2])]
-    ok = len(t0d) == 1 and ast.unparse(t0d[0].value) == "time[%s]" % kv and len(aug) == 1 and ast.unparse(aug[0].stmt.value) == "dt" and isinstance(aug[0].stmt.op, ast.Add) and sc.order[aug[0].stmt] > sc.order[c]
+    ok = len(t0d) == 1 and na.key(t0d[0].value) == KA("@G[%s]" % kv) and len(aug) == 1 and ast.unparse(aug[0].stmt.value) == "dt" and isinstance(aug[0].stmt.op, ast.Add) and sc.order[aug[0].stmt] > sc.order[c]
     ctx.check(ok, "_grid_intg_fine step start runs through the integrator grid of interval k", detail="step start times", expected="t0 = time[k]; per l: ...; t0 += dt", found="", fi=f)
     tt = [x for x in walk_no_nested(f.node) if is_call_to(x, "append", "total_time")]
-    ok = len(tt) == 2 and ast.unparse(tt[0].args[0]) == "local_t" and ast.unparse(tt[1].args[0]) == "time[%s + 1]" % kv
+    ok = len(tt) == 2 and ast.unparse(tt[0].args[0]) == "local_t" and na.key(tt[1].args[0]) == KA("@G[%s+1]" % kv)
     ctx.check(ok, "_grid_intg_fine returned times: per-step samples then the final node", detail="returned time vector", expected="total_time.append(local_t) per step; finally time[k+1]", found="; ".join(ast.unparse(x) for x in tt), fi=f)
 
 
